@@ -214,6 +214,56 @@ AREAS = [
                    'Zone::GetLocalZone()': ('Some l', 'zptr'), 'this': ('Some z', 'zptr')},
              fns={'zptr->GetGlobal': ('xz_global t', ['zptr'], 'bool'), 'zptr->IsChildOf': ('xz_is_child_of t', ['zptr', 'zptr'], 'bool')}),
     ]),
+    # ---------------------------------------------------------------------------------------- round 2: C02 send / suppress / stash / fire
+    dict(area='supp', requires=['Icv.Facts.Facts_enums', 'Icv.Src.XlPrelude', 'Icv.Facts.Facts_fn_ck'], items=[
+        dict(glue='notify_events', props=['C02', 'C06'], deps=[], doc='a call of Checkable::OnNotificationsRequested(this, type, ...): the requested notification type, in program order',
+             text='Inductive xn_ev := XnRequest (type : Z).\n'),
+        # the computation of send_notification / suppress_notification (checkable-check.cpp, "bool in_downtime = ..." up to "StateType new_stateType")
+        dict(name='pcr_send_suppress', func='Checkable::ProcessCheckResult', file='lib/icinga/checkable-check.cpp', props=['C02'],
+             region=(r'bool\s+in_downtime\s*=', r'StateType\s+new_stateType\s*='), outputs=['in_downtime', 'send_notification', 'suppress_notification'],
+             inputs=[('is_host', 'bool'), ('notification_reachable', 'bool'), ('in_dt', 'bool'), ('acknowledged', 'bool'), ('hard_change', 'bool'),
+                     ('is_volatile', 'bool'), ('old_state_type', 'Z'), ('state_type', 'Z'), ('old_state', 'Z'), ('new_state', 'Z')],
+             ret='void', rcoq='bool * bool * bool', dummy='(false, false, false)',
+             locals={'notification_reachable': Bb('notification_reachable'), 'hardChange': Bb('hard_change'), 'is_volatile': Bb('is_volatile'),
+                     'old_stateType': Zb('old_state_type'), 'old_state': Zb('old_state'), 'new_state': Zb('new_state')},
+             bind={'IsInDowntime()': Bb('in_dt'), 'IsAcknowledged()': Bb('acknowledged'), 'GetStateType()': Zb('state_type')},
+             fns={'IsStateOK': ('src_checkable_is_state_ok is_host', ['Z'], 'bool')}),
+        # flapping start/end + immediate-vs-stash + the stash block ("int suppressed_types = 0;" up to the reachability update);
+        # suppressed_notifications and state_before_suppression are STATE variables (read, then written under the lock)
+        dict(name='pcr_notify_stash', func='Checkable::ProcessCheckResult', file='lib/icinga/checkable-check.cpp', props=['C02'],
+             region=(r'int\s+suppressed_types\s*=\s*0\s*;', r'if\s*\(\s*\(\s*stateChange\s*\|\|\s*hardChange\s*\)'), outputs=[],
+             inputs=[('was_flapping', 'bool'), ('is_flapping', 'bool'), ('paused', 'bool'), ('in_downtime', 'bool'), ('send_notification', 'bool'),
+                     ('suppress_notification', 'bool'), ('recovery', 'bool'), ('old_state_type', 'Z'), ('old_state', 'Z'),
+                     ('supp0', 'Z'), ('sbs0', 'Z')],
+             ret='void', dummy='(0, 0, nil)',
+             locals={'was_flapping': Bb('was_flapping'), 'is_flapping': Bb('is_flapping'), 'in_downtime': Bb('in_downtime'),
+                     'send_notification': Bb('send_notification'), 'suppress_notification': Bb('suppress_notification'), 'recovery': Bb('recovery'),
+                     'old_stateType': Zb('old_state_type'), 'old_state': Zb('old_state')},
+             state=[('$supp', 'supp0', 'Z'), ('$sbs', 'sbs0', 'Z'), ('$events', '(@nil xn_ev)', 'list xn_ev')],
+             getters={'GetSuppressedNotifications()': '$supp'}, setters={'SetSuppressedNotifications': '$supp', 'SetStateBeforeSuppression': '$sbs'},
+             emits={'OnNotificationsRequested': ('$events', 'XnRequest {1}', [None, 'Z', None, None, None, None])},
+             skip=[r'^Log\(', r'^ObjectLock ', r'^NotifyFlapping\(origin\)$'],
+             bind={'IsPaused()': Bb('paused')}),
+        # Checkable::FireSuppressedNotifications (checkable-notification.cpp); the LazyInit lambda (did a parent recover recently?) is an input
+        dict(name='checkable_fire_suppressed_notifications', func='Checkable::FireSuppressedNotifications', file=CK_FILE, props=['C02'],
+             inputs=[('active', 'bool'), ('paused', 'bool'), ('enable_notifications', 'bool'), ('supp0', 'Z'), ('is_host', 'bool'), ('has_cr', 'bool'),
+                     ('cr_state', 'Z'), ('state_type', 'Z'), ('sbs', 'Z'), ('reachable', 'bool'), ('in_downtime', 'bool'), ('acknowledged', 'bool'),
+                     ('flapping', 'bool'), ('likely_soon', 'bool'), ('parent_recent', 'bool')],
+             ret='void', dummy='(0, nil)',
+             state=[('$supp', 'supp0', 'Z'), ('$events', '(@nil xn_ev)', 'list xn_ev')],
+             getters={'GetSuppressedNotifications()': '$supp'}, setters={'SetSuppressedNotifications': '$supp'},
+             emits={'Checkable::OnNotificationsRequested': ('$events', 'XnRequest {1}', [None, 'Z', None, None, None, None])},
+             bind={'IsActive()': Bb('active'), 'IsPaused()': Bb('paused'), 'GetEnableNotifications()': Bb('enable_notifications'),
+                   'GetLastCheckResult()': ('has_cr', 'ptr'), 'GetLastCheckResult()->GetState()': Zb('cr_state'),
+                   'GetStateType()': Zb('state_type'), 'GetStateBeforeSuppression()': Zb('sbs'),
+                   'dynamic_cast<Host *>(this)': ('is_host', 'ptr'),
+                   'IsLikelyToBeCheckedSoon()': Bb('likely_soon'),
+                   '[lambda1].Get()': Bb('parent_recent')},
+             fns={'IsStateOK': ('src_checkable_is_state_ok is_host', ['Z'], 'bool'),
+                  'Host::CalculateState': ('src_host_calculate_state', ['Z'], 'Z'),
+                  'NotificationReasonSuppressed': ('(fun xt => src_checkable_notification_reason_suppressed xt reachable in_downtime acknowledged)', ['Z'], 'bool'),
+                  'NotificationReasonApplies': ('(fun xt => src_checkable_notification_reason_applies xt is_host has_cr cr_state flapping)', ['Z'], 'bool')}),
+    ]),
     # ---------------------------------------------------------------------------------------- C18 (tracked, outside the subset today)
     dict(area='perm', requires=['Icv.Src.XlPrelude'], items=[
         # builds Expression objects with `new`, writes through an out-parameter: not translatable; listed so that the evidence
